@@ -376,6 +376,8 @@ def text_leaves():
         ('str', 'a'), ('str', 'ab'), ('str', ''), ('istr', 'a'),
         ('re', 'a+', False), ('re', 'a?', False), ('re', 'b', True),
         ('ref', 'Ra'), ('ref', 'Rab'), ('ref', 'Rn'), ('fail', None), ('seq', []),
+        # the same pattern text as "a"i / /b/i with the other case flag (one grammar, two matchers)
+        ('re', 'a', False), ('re', 'b', False),
     ]
 
 
@@ -391,6 +393,7 @@ def bytes_leaves():
         ('bstr', b'a'), ('bstr', b'ab'), ('bstr', b''), ('bistr', b'a'), ('byte', 0x61),
         ('bre', 'a+', False), ('bre', 'a?', False),
         ('ref', 'Ra'), ('ref', 'Rab'), ('ref', 'Rn'), ('fail', None),
+        ('bre', 'a', False), ('bre', 'a', True),
     ]
 
 
@@ -534,13 +537,14 @@ class RandomGrammar:
         al = self.alphabet
         if self.bytes_mode:
             opts = [('bstr', al[0].encode()), ('bstr', al[:2].encode()), ('byte', ord(al[1])),
-                    ('bre', '[%s]' % al, False), ('bre', al[0] + '+', False), ('bistr', al[0].encode())]
+                    ('bre', '[%s]' % al, False), ('bre', al[0] + '+', False), ('bistr', al[0].encode()),
+                    ('bre', al[0], False), ('bre', al[0] + '+', True)]
             if not consuming:
                 opts += [('bstr', b''), ('bre', al[0] + '?', False), ('bre', al[1] + '*', False)]
         else:
             opts = [('str', al[0]), ('str', al[1]), ('str', al[:2]), ('str', al[1] + al[0]),
                     ('re', '[%s]' % al, False), ('re', al[0] + '+', False), ('istr', al[0]),
-                    ('re', al[1], True)]
+                    ('re', al[1], True), ('re', al[0], False), ('re', al[1], False), ('re', al[0] + '+', True)]
             if not consuming:
                 opts += [('str', ''), ('re', al[0] + '?', False), ('re', al[1] + '*', False)]
         return r.choice(opts)
